@@ -154,6 +154,12 @@ def run(rep):
     import attactions
     att_cov = attactions.stage(rep, tools, 'C02', kills=True)
     import c02late; late_cov = c02late.stage(rep, tools)    # failures (injected / by path length) AFTER the original was removed
+    deep_cov = None
+    if rep.tier == 'thorough':
+        # kills before every call of every scenario of every family (corpus variants, stdin deliveries, rewriting cases, exec and flag
+        # sequences), in worker processes (tools/c02deep.py)
+        import c02deep
+        deep_cov = c02deep.stage(rep, tools, sc)
     kills = 0
     corr_bad = []
     for r in results:
@@ -169,8 +175,8 @@ def run(rep):
                        'examples': corr_bad[:8]}, False)
     vlib.lean_conclude(rep)
     rep.coverage.update({
-        'evaluations': len(results),
-        'distinct_nontrivial': kills,
+        'evaluations': len(results) + (deep_cov['kills'] if deep_cov else 0),
+        'distinct_nontrivial': kills + (deep_cov['kills'] if deep_cov else 0),
         'rule': '%d scenarios of the C01 corpus; the process is killed (SIGKILL from the shim) before call k for every k of the fault-free call '
                 'sequence and the tree must still hold an intact copy of every message; every fault-free trace is replayed under the '
                 'ordered-metadata / fsync storage model (no original may be removed before its copy is complete on stable storage); every '
@@ -181,6 +187,8 @@ def run(rep):
         'failures_after_the_commit_point': late_cov,
         'correspondence_mismatches': len(corr_bad),
     })
+    if deep_cov:
+        rep.coverage['kills_in_every_family'] = deep_cov
 
 
 def replay(rep, path):
@@ -192,6 +200,11 @@ def replay(rep, path):
     if j.get('stage') == 'attachment-actions':
         import attactions
         attactions.replay(tools, j)
+        rep.coverage.update({'evaluations': 1, 'distinct_nontrivial': 1})
+        return
+    if j.get('stage') == 'kill-families':
+        import c02deep
+        c02deep.replay(tools, sc, j)
         rep.coverage.update({'evaluations': 1, 'distinct_nontrivial': 1})
         return
     if j.get('stage') == 'late-failure':
